@@ -61,7 +61,7 @@ def WFTy (env : Env) : Ty → Prop
   | .strSz lo hi => 0 ≤ lo ∧ inI64 lo hi ∧ ¬(lo = 0 ∧ hi = i64max)
   | .strVal _ => False
   | .bool _ => True
-  | .enum vs ci => (vs = [] → ci = false) ∧ (ci = true → ∀ v ∈ vs, asciiLower v = some v)
+  | .enum vs ci => (vs = [] → ci = false) ∧ (ci = true → ∀ v ∈ vs, lowerStr v = v)
   | .regexp s => s = [] ∨ (rxRep false s = true ∧ env.rxOK s = true)
   | .pattern srcs => ∀ s ∈ srcs, rxRep false s = true ∧ env.rxOK s = true
   | .wrap k t =>
@@ -552,14 +552,14 @@ theorem enumFlat_strs (vs : List Str) (ci : Bool) : enumFlat (vs.map Arg.str ++ 
       rw [hrest] at ih
       simp [enumFlat, ih]
 
-theorem mapM_asciiLower_id (vs : List Str) (h : ∀ v ∈ vs, asciiLower v = some v) : vs.mapM asciiLower = some vs := by
+theorem map_lowerStr_id (vs : List Str) (h : ∀ v ∈ vs, lowerStr v = v) : vs.map lowerStr = vs := by
   induction vs with
   | nil => rfl
   | cons v vs ih =>
-    simp [List.mapM_cons, h v (by simp), ih (fun x hx => h x (by simp [hx]))]
+    simp [h v (by simp), ih (fun x hx => h x (by simp [hx]))]
 
 theorem resolve_enum (env : Env) (vs : List Str) (ci : Bool)
-    (h : (vs = [] → ci = false) ∧ (ci = true → ∀ v ∈ vs, asciiLower v = some v)) :
+    (h : (vs = [] → ci = false) ∧ (ci = true → ∀ v ∈ vs, lowerStr v = v)) :
     resolve env (exprOf (tyExpr (.enum vs ci))) = some (.enum vs ci) := by
   simp only [tyExpr, resolve_tname]
   cases vs with
@@ -592,7 +592,10 @@ theorem resolve_enum (env : Env) (vs : List Str) (ci : Bool)
     simp only [newEnum, List.isEmpty_cons, Bool.false_eq_true, if_false]
     cases ci with
     | false => simp
-    | true => simp [mapM_asciiLower_id _ (h.2 rfl)]
+    | true =>
+      have := map_lowerStr_id _ (h.2 rfl)
+      simp only [List.map_cons] at this
+      simp [this]
 
 /-! #### the constructors with type arguments -/
 
